@@ -466,6 +466,7 @@ fn explore_target<T: Target>(rep: &Report, stats: &Mutex<Stats>, thorough: bool)
         }
     }
     jobs.par_iter().for_each(|(origin, h, w, mode)| {
+        crate::engine::crumb::set_job(&format!("C09 target={} origin={origin:?} h={h} w={w} mode={mode:?}", T::NAME));
         let mut st = Stats::default();
         let mut local = vec![];
         let est = estimate_product(|ch| run_case::<T>(rep, ch, *origin, *h, *w, *mode, &mut vec![], true));
@@ -477,6 +478,7 @@ fn explore_target<T: Target>(rep: &Report, stats: &Mutex<Stats>, thorough: bool)
             rep.extra_add(if thorough { "jobs_deviation_bound_3" } else { "jobs_deviation_bound_2" }, 1);
         }
         rep.cases_bulk(&local);
+        crate::engine::crumb::clear();
         stats.lock().unwrap().merge(&st);
     });
 }
